@@ -114,6 +114,28 @@ def retext(unit: Unit) -> bool:
     return True
 
 
+def unit_type_names_shadow_free(unit: Unit) -> bool:
+    """No scope chain sees two definitions of the same name (then the identity-derived texts
+    of retext() are also what the innermost-scope-outward rule resolves)."""
+    from .model import iter_messages
+
+    for f in unit.files:
+        def chain_ok(m: Message, seen: set) -> bool:
+            mine = {it.name for it in m.items}
+            if mine & seen:
+                return False
+            for sub in m.nested():
+                if isinstance(sub, Message) and not chain_ok(sub, seen | mine):
+                    return False
+            return True
+
+        top = {it.name for it in f.items}
+        for it in f.items:
+            if isinstance(it, Message) and not chain_ok(it, top):
+                return False
+    return True
+
+
 def names_unique(unit: Unit) -> bool:
     """Names unique per scope (and type/const names unique per file incl. import names)."""
     for f in unit.files:
